@@ -1,6 +1,7 @@
 package eng
 
 import (
+	"bytes"
 	"errors"
 	"os"
 	"path/filepath"
@@ -49,7 +50,7 @@ type FS struct {
 	phase    string
 	// SlowSiblings delays writes adjacent (by ordinal) to an injected
 	// write failure by this duration.
-	SlowSiblings time.Duration
+	SlowSiblings       time.Duration
 	ReadOnlyViolations []FOp // successful mutating ops (used by C18)
 }
 
@@ -90,6 +91,25 @@ func (fs *FS) Mark(note string) {
 }
 
 // Counts returns how many operations of each kind have been seen.
+// FooterImage returns the payload of the n-th newest footer write recorded so
+// far (n = 0: the newest), or nil: a byte-exact image of a footer the store
+// has written, for hostile values.
+func (fs *FS) FooterImage(n int) []byte {
+	fs.mu.Lock()
+	defer fs.mu.Unlock()
+	for i := len(fs.Trace) - 1; i >= 0; i-- {
+		op := fs.Trace[i]
+		if op.Kind == "write" && op.Err == "" && len(op.Data) > 2*len(moss.StoreMagicBeg) &&
+			bytes.HasPrefix(op.Data, moss.StoreMagicBeg) && bytes.HasPrefix(op.Data[len(moss.StoreMagicBeg):], moss.StoreMagicBeg) {
+			if n == 0 {
+				return append([]byte{}, op.Data...)
+			}
+			n--
+		}
+	}
+	return nil
+}
+
 func (fs *FS) Counts() map[string]int {
 	fs.mu.Lock()
 	defer fs.mu.Unlock()
